@@ -134,12 +134,14 @@ func c04Rules(p *core.Prog, r *core.Run) {
 		[]assumption{boolAssume("inner.tls13", false, fieldOf(isInner, "tls13"))}, IP, procOK)
 	// the tls13 test must come after the re-parse of the spliced extensions
 	c04AfterReparse(p, r, m)
+	// ... and means what it says: set for a supported_versions entry >= 0x0304 only
+	c05SniAlpn(p, r, m, "C04.G6.parse")
 
 	// G7: padding
 	c04Padding(p, r, m)
 
 	// G8-G11: reference list
-	c04References(p, r, m)
+	c04References(p, r, m, "C04.")
 
 	// G12: parser discipline
 	c04ParserDiscipline(p, r, "C04.G12", []*ssa.Function{m.parseCH, m.parseExt, m.process}, map[string]bool{DE: true, IP: true})
@@ -244,8 +246,15 @@ func c04Padding(p *core.Prog, r *core.Run, m *echModel) {
 		}
 	}
 	// the body cursor holds the 24-bit length-prefixed handshake body
-	st, _ := p.CellDefs(body)
+	st, bodyCalls := p.CellDefs(body)
 	fromBody := false
+	// (the cursor is itself the target of the uint24 length-prefixed read ...
+	for _, c := range bodyCalls {
+		if callX(p, c).Name == "(*cryptobyte.String).ReadUint24LengthPrefixed" && len(c.Common().Args) == 2 && p.CellRoot(c.Common().Args[1]) == body {
+			fromBody = true
+		}
+	}
+	// ... or is re-pointed to that target)
 	for _, s := range st {
 		if a, ok := p.IsCellLoad(s.Val); ok {
 			_, calls := p.CellDefs(a)
@@ -364,7 +373,7 @@ func c04Padding(p *core.Prog, r *core.Run, m *echModel) {
 }
 
 // c04References checks G8-G11 on the Appendix B loop of the processor.
-func c04References(p *core.Prog, r *core.Run, m *echModel) {
+func c04References(p *core.Prog, r *core.Run, m *echModel, pre string) {
 	fn := m.process
 	ok := func(ret *ssa.Return) bool { return !isNilConst(ret.Results[0]) }
 	isRef := func(e *core.Expr) bool {
@@ -376,12 +385,12 @@ func c04References(p *core.Prog, r *core.Run, m *echModel) {
 		}
 		return false
 	}
-	immediateAbort(p, r, "C04.G10", "process:reference-names-0xfe0d", fn, cmpAssume("reference == 0xfe0d", "==", isRef, isConstName("65037")), "ech.ErrIllegalParameter", ok)
-	immediateAbort(p, r, "C04.G10", "process:reference-names-0xfd00", fn, cmpAssume("reference == 0xfd00", "==", isRef, isConstName("64768")), "ech.ErrIllegalParameter", ok)
+	immediateAbort(p, r, pre+"G10", "process:reference-names-0xfe0d", fn, cmpAssume("reference == 0xfe0d", "==", isRef, isConstName("65037")), "ech.ErrIllegalParameter", ok)
+	immediateAbort(p, r, pre+"G10", "process:reference-names-0xfd00", fn, cmpAssume("reference == 0xfd00", "==", isRef, isConstName("64768")), "ech.ErrIllegalParameter", ok)
 	// G8: malformed list: failing reads return decode_error (also in G12)
 	for _, name := range []string{"(*cryptobyte.String).ReadUint8LengthPrefixed", "(*cryptobyte.String).ReadUint16"} {
 		n := name
-		immediateAbort(p, r, "C04.G8", "process:"+lastDot(n)+"-fails", fn, boolAssume(lastDot(n)+" fails", false, func(e *core.Expr) bool { return e.Op == "call" && e.Name == n }), "ech.ErrDecodeError", ok)
+		immediateAbort(p, r, pre+"G8", "process:"+lastDot(n)+"-fails", fn, boolAssume(lastDot(n)+" fails", false, func(e *core.Expr) bool { return e.Op == "call" && e.Name == n }), "ech.ErrDecodeError", ok)
 	}
 	// G9: second marker. The If tests a boolean that is loop-carried; on the
 	// marker path the value carried to the next iteration is true.
@@ -439,12 +448,12 @@ func c04References(p *core.Prog, r *core.Run, m *echModel) {
 				setOnMarker = false
 			}
 		}
-		r.Check("C04.G9", "process:second-marker", good && setOnMarker && sawMarkerEdge, p.InstrPos(iff), "a marker seen before aborts with illegal_parameter (%v) and the first marker sets the flag for the following iterations (%v)", good, setOnMarker && sawMarkerEdge)
+		r.Check(pre+"G9", "process:second-marker", good && setOnMarker && sawMarkerEdge, p.InstrPos(iff), "a marker seen before aborts with illegal_parameter (%v) and the first marker sets the flag for the following iterations (%v)", good, setOnMarker && sawMarkerEdge)
 	}
-	r.Check("C04.G9", "process:marker-flag", n9 == 1, p.Pos(fn.Pos()), "exactly one 'marker already seen' test on the ech_outer_extensions path (found %d)", n9)
+	r.Check(pre+"G9", "process:marker-flag", n9 == 1, p.Pos(fn.Pos()), "exactly one 'marker already seen' test on the ech_outer_extensions path (found %d)", n9)
 
 	// G11 / S2: forward-only cursor
-	refCursor(p, r, m, "C04.G11")
+	refCursor(p, r, m, pre+"G11")
 }
 
 // refCursor checks the Appendix B cursor discipline (shared with C03.S2):
